@@ -3,6 +3,7 @@ package rt
 // Fresh-process execution of one history / schedule: the worker re-executes its own test binary.
 
 import (
+	"io/ioutil"
 	"bytes"
 	"encoding/json"
 	"fmt"
@@ -30,7 +31,16 @@ func childMain() bool {
 		fmt.Println(childMarker + `{"error":"unknown child kind"}`)
 		return true
 	}
-	res := f([]byte(os.Getenv("VERIF_CHILD_PAYLOAD")))
+	payload := []byte(os.Getenv("VERIF_CHILD_PAYLOAD"))
+	if pf := os.Getenv("VERIF_CHILD_PAYLOAD_FILE"); pf != "" {
+		b, err := ioutil.ReadFile(pf)
+		if err != nil {
+			fmt.Fprintln(os.Stderr, "cannot read child payload:", err)
+			os.Exit(3)
+		}
+		payload = b
+	}
+	res := f(payload)
 	b, err := json.Marshal(res)
 	if err != nil {
 		b = []byte(fmt.Sprintf(`{"error":%q}`, err.Error()))
@@ -54,7 +64,19 @@ func RunChild(kind string, payload interface{}, extraEnv []string) ([]byte, stri
 		}
 		env = append(env, e)
 	}
-	env = append(env, "VERIF_CHILD="+kind, "VERIF_CHILD_PAYLOAD="+string(pb))
+	if len(pb) > 60000 {
+		// a single environment string is limited to 128 KiB: long histories travel in a file
+		tf, err := ioutil.TempFile("", "verif_payload_")
+		if err != nil {
+			return nil, "", err
+		}
+		tf.Write(pb)
+		tf.Close()
+		defer os.Remove(tf.Name())
+		env = append(env, "VERIF_CHILD="+kind, "VERIF_CHILD_PAYLOAD_FILE="+tf.Name())
+	} else {
+		env = append(env, "VERIF_CHILD="+kind, "VERIF_CHILD_PAYLOAD="+string(pb))
+	}
 	env = append(env, extraEnv...)
 	cmd.Env = env
 	var so, se bytes.Buffer
